@@ -118,7 +118,16 @@ _Bool nondet_bool(void); unsigned long nondet_u64(void); unsigned short nondet_u
  * in the trace); in a native replay the recorded values are assigned (W_INIT_<name>, generated from the counterexample) */
 #ifdef NATIVE_REPLAY_DECLS
 #define ND_FILL_U16(obj, arr, k) do { memset(&(obj), 0, sizeof(obj)); W_INIT_##obj; } while (0)
+#define ND_FILL_U8(obj, arr, k) do { memset(&(obj), 0, sizeof(obj)); W_INIT_##obj; } while (0)
 #else
+#ifdef WITNESS
+#define F8_(a, i) { uint8_t x_ = nondet_uchar(); (a)[i] = x_; }
+#define F8x8_(a, b) F8_(a, b) F8_(a, b + 1) F8_(a, b + 2) F8_(a, b + 3) F8_(a, b + 4) F8_(a, b + 5) F8_(a, b + 6) F8_(a, b + 7)
+/* 32-byte sets: loop-free so that the witness run needs no extra unwinding */
+#define ND_FILL_U8(obj, arr, k) do { F8x8_(arr, 0) F8x8_(arr, 8) F8x8_(arr, 16) F8x8_(arr, 24) } while (0)
+#else
+#define ND_FILL_U8(obj, arr, k) ((void)0)   /* an uninitialised local is already arbitrary */
+#endif
 #define ND_FILL_U16(obj, arr, k) do { for (size_t i_ = 0; i_ < (k); i_++) { uint16_t x_ = nondet_u16(); (arr)[i_] = x_; } } while (0)
 #endif
 #define ND_SV(v) sv_t v; (v).n = nondet_size(); MAKE_SV(v)
